@@ -4,6 +4,7 @@ mod dsl;
 mod hosts;
 mod props;
 mod refmodel;
+mod sched;
 mod seqx;
 
 use hosts::HostKind;
@@ -95,6 +96,72 @@ fn seqx_property(id: &str, tier: Tier) -> i32 {
     )
 }
 
+fn sched_property(tier: Tier, only: Option<String>) -> i32 {
+    let rep = Reporter::new("C08", tier);
+    let scns: Vec<_> = sched::scenarios(tier == Tier::Thorough)
+        .into_iter()
+        .filter(|s| only.as_ref().map_or(true, |o| s.name.starts_with(o.as_str())))
+        .collect();
+    let bound = tier.pick(2, 3);
+    let deadline = mc_kit::Deadline::new(tier.pick(45.0, 780.0));
+    let max_execs = tier.pick(60_000, 3_000_000);
+    let results = mc_kit::par_map(&scns, |_, s| sched::explore(s, bound, max_execs, &deadline));
+    let mut per = vec![];
+    let mut samples = vec![];
+    let (mut execs, mut decisions, mut outcomes) = (0u64, 0u64, 0usize);
+    let mut exhaustive = true;
+    for r in &results {
+        execs += r.executions;
+        decisions += r.decisions;
+        outcomes += r.distinct_logs;
+        exhaustive &= !r.capped && r.bound_completed == Some(bound) || !r.violations.is_empty();
+        per.push(json!({"scenario": r.name, "executions": r.executions, "decisions": r.decisions,
+            "max_decisions_per_execution": r.max_decisions, "executions_by_preemption_bound": r.by_bound,
+            "preemption_bound_completed": r.bound_completed, "distinct_final_outcomes": r.distinct_outcomes,
+            "distinct_event_logs": r.distinct_logs, "sequential_reference_outcomes": r.sequential_outcomes, "capped": r.capped}));
+        if let Some(s) = &r.sample {
+            if samples.len() < 4 {
+                samples.push(s.clone());
+            }
+        }
+        for (key, what, _) in &r.violations {
+            if std::env::var("VERIF_VERBOSE").is_ok() {
+                println!("  [{}] {}: {}", r.name.split(' ').next().unwrap_or(""), key, what.chars().take(700).collect::<String>());
+            }
+        }
+        for (key, what, replay) in &r.violations {
+            rep.violation(mc_kit::Violation { key: key.clone(), what: what.clone(), replay: replay.clone(), size: what.len() });
+        }
+        if r.violations.is_empty() && r.distinct_logs < 2 && r.executions > 10 && r.name.starts_with("S6") {
+            mc_kit::machinery_error("vacuous: the colliding scenario S6 produced a single event log from many schedules");
+        }
+    }
+    if execs < 2 {
+        mc_kit::machinery_error("vacuous: fewer than 2 executions");
+    }
+    let coverage = json!({
+        "states": decisions,
+        "transitions": decisions,
+        "traces_validated_against_impl": execs,
+        "evaluations": execs,
+        "distinct_nontrivial": outcomes,
+        "rule": "one evaluation = one complete controlled execution of 2-3 real OS threads calling into one real Core/Bridge (exactly one thread runs at a time; switches only at the schedule points compiled in under --cfg crux_verif and at the modelled model/registry locks); states/transitions = scheduling decisions taken; all schedules with at most `preemption_bound` preemptions are enumerated by depth-first search over choice prefixes, bounds iterated 0,1,2(,3). Oracle: no panic/deadlock/livelock, outcome (multiset of effects returned by all calls, multiset of applied events, per-task order, rejections, quiescence gauges, empty no-op probe, behaviour of a sequential drain of everything still outstanding) equals the outcome of some sequential order of the same calls executed on the real code. distinct_nontrivial = distinct final event logs over all scenarios.",
+        "preemption_bound": bound,
+        "scenarios": per,
+        "exhaustive": exhaustive,
+        "samples": samples,
+    });
+    rep.finish(
+        "model_checking",
+        coverage,
+        &[
+            "interleavings are explored at the named schedule points under sequential consistency; code between two points runs atomically; weaker memory orderings are not modelled",
+            "third-party primitives (crossbeam-channel, futures mpsc/AtomicWaker, std Mutex/RwLock) are treated as linearizable atomic steps",
+            "every reported violation is a real, replayable execution; absence of violations is relative to the points and the preemption bound completed",
+        ],
+    )
+}
+
 fn main() {
     let args: Vec<String> = std::env::args().skip(1).collect();
     let tier = Tier::from_args(&args);
@@ -106,6 +173,7 @@ fn main() {
             dev(&args[1..]);
             0
         }
+        Some("C08") => sched_property(tier, mc_kit::arg_value(&args, "--only")),
         Some(id @ ("C01" | "C02" | "C03" | "C04" | "C05" | "C06" | "C07")) => seqx_property(id, tier),
         _ => {
             eprintln!("usage: mc-core <C01..C08|C18> --tier quick|thorough [--replay path]");
